@@ -278,12 +278,22 @@ impl Array8 {
 
         // Read byte array from offset HLL_BYTE_ARR_START
         let mut data = vec![0u8; k];
-        if !compact {
-            cursor
-                .read_exact(&mut data)
-                .map_err(insufficient_data("data"))?;
-        } else {
-            cursor.advance(k as u64);
+        // The register array is present in compact and updatable images alike.
+        let _ = compact;
+        cursor
+            .read_exact(&mut data)
+            .map_err(insufficient_data("data"))?;
+        // Register values are at most 63 (62 leading zeros + 1); larger ones would overflow the
+        // 2^-value computations of the estimator.
+        if data.iter().any(|&v| v > 63) {
+            return Err(Error::deserial("register value exceeds 63"));
+        }
+        // Updates decrement num_zeros whenever a zero register is hit, so it must be exact.
+        let actual_zeros = data.iter().filter(|&&v| v == 0).count() as u32;
+        if actual_zeros != num_zeros {
+            return Err(Error::deserial(format!(
+                "num_zeros is {num_zeros} but {actual_zeros} registers are zero"
+            )));
         }
 
         // Create estimator and restore state
